@@ -362,9 +362,10 @@ func probesFor(g *Group, i int, pkt []byte, client string) []probe {
 func runWorld(g *Group, world string) *Transcript {
 	tr := &Transcript{World: world}
 	t0 := time.Now()
+	var tNew, tHist time.Duration
 	defer func() {
 		if os.Getenv("C05_TIMING") != "" {
-			fmt.Fprintf(os.Stderr, "world %s conf=%s total=%v packets=%v\n", world, g.Conf.Name, time.Since(t0), tr.Elapsed)
+			fmt.Fprintf(os.Stderr, "world %s conf=%s total=%v packets=%v new=%v hist=%v\n", world, g.Conf.Name, time.Since(t0), tr.Elapsed, tNew, tHist)
 		}
 	}()
 	dir, err := os.MkdirTemp(tempRoot(), "c05-")
@@ -388,6 +389,7 @@ func runWorld(g *Group, world string) *Transcript {
 		st.Close()
 		cache.VerifC05ResetEntryLimiters()
 	}()
+	tNew = time.Since(t0)
 	if st.Cache() == nil {
 		tr.Err = "no cache in chain"
 		return tr
@@ -426,6 +428,7 @@ func runWorld(g *Group, world string) *Transcript {
 	}
 
 	// ---- case packets + probe suffix ----
+	tHist = time.Since(t0) - tNew
 	start := time.Now()
 	for i, p := range g.Pkts {
 		pkt, err := hex.DecodeString(p.Hex)
